@@ -41,10 +41,11 @@ import (
 	"verif/ref/rtpref"
 	"verif/ref/rtspref"
 	"verif/ref/tsref"
+	"verif/ref/wsref"
 )
 
 type Cons struct {
-	Kind    string `json:"kind"`     // rtmp | flv | wsflv | ts | rtsp
+	Kind    string `json:"kind"`     // rtmp | flv | wsflv | ts | rtsp | wsrtsp
 	Stall   bool   `json:"stall"`    // stops reading at StallAt
 	StallAt int    `json:"stall_at"` // after items[0..StallAt) were processed
 	End     string `json:"end"`      // resume | sweep | write-timeout  (how the stall ends)
@@ -67,13 +68,13 @@ func genCase(t *rapid.T) Case {
 	c.Codecs, c.Items = gen.GenStream(t, o)
 	c.ExtraMsg = rapid.IntRange(4, 30).Draw(t, "extra")
 	n := rapid.IntRange(1, 5).Draw(t, "ncons")
-	kinds := []string{"rtmp", "flv", "wsflv", "ts", "rtsp"}
+	kinds := []string{"rtmp", "flv", "wsflv", "ts", "rtsp", "wsrtsp"}
 	for i := 0; i < n; i++ {
 		k := Cons{Kind: rapid.SampledFrom(kinds).Draw(t, "kind")}
 		k.Stall = rapid.IntRange(0, 2).Draw(t, "stall") != 0
 		k.StallAt = rapid.IntRange(0, len(c.Items)).Draw(t, "stallAt")
 		k.End = rapid.SampledFrom([]string{"resume", "resume", "sweep", "write-timeout"}).Draw(t, "end")
-		if k.End == "write-timeout" && (k.Kind == "rtmp" || k.Kind == "rtsp") {
+		if k.End == "write-timeout" && (k.Kind == "rtmp" || k.Kind == "rtsp" || k.Kind == "wsrtsp") {
 			k.End = "sweep" // their write timeout (10 s) is not configurable; the sweep is what disconnects them
 		}
 		c.Cons = append(c.Cons, k)
@@ -86,6 +87,7 @@ func genCase(t *rapid.T) Case {
 const stream = "c15stream"
 
 type rtspSub struct {
+	ws     *wsref.Stream // non-nil for RTSP over WebSocket
 	conn   *memconn.Conn
 	cl     *rtspref.Client
 	frames chan rtspref.Frame
@@ -200,7 +202,7 @@ func run(c Case) *pbt.Violation {
 	next := pro
 	needSdp := false
 	for _, k := range c.Cons {
-		if k.Kind == "rtsp" {
+		if k.Kind == "rtsp" || k.Kind == "wsrtsp" {
 			needSdp = true
 		}
 	}
@@ -239,11 +241,11 @@ func run(c Case) *pbt.Violation {
 		case "ts":
 			a.ts = lalclient.NewTsSub(s, "live", stream)
 			a.conn = a.ts.Conn
-		case "rtsp":
+		case "rtsp", "wsrtsp":
 			if !(c.Codecs.Video != "" && c.Codecs.Audio == "aac") && next-pro < 17 {
 				continue // lal has no SDP yet (it analyses up to 16 messages of a single-track stream): nothing to subscribe to
 			}
-			rs, err := newRtspSub(s)
+			rs, err := newRtspSub(s, k.Kind == "wsrtsp")
 			if err != nil {
 				if v := s.PanicViolation(); v != nil {
 					return v
@@ -260,10 +262,25 @@ func run(c Case) *pbt.Violation {
 		cons = append(cons, a)
 	}
 	// publish the generated part; consumers stall at their positions
+	// an RTSP consumer that has already been sent RTP when it stalls is "flowing" (not waiting for a key frame): every
+	// later packet is offered to its queue, so the small queue is certainly full after the stall phase
+	flowing := map[*attached]bool{}
+	bytesAtJoin := map[*attached]int64{}
+	for _, a := range cons {
+		bytesAtJoin[a] = a.conn.TotalReceived()
+	}
+	stallOne := func(a *attached) {
+		if a.rs != nil && a.conn.TotalReceived() > bytesAtJoin[a] {
+			flowing[a] = true
+		}
+		a.conn.SetRecvWindow(0)
+	}
+	stalled := map[*attached]bool{}
 	stallNow := func(pos int) {
 		for _, a := range cons {
-			if a.spec.Stall && a.spec.StallAt == pos {
-				a.conn.SetRecvWindow(0)
+			if a.spec.Stall && a.spec.StallAt == pos && !stalled[a] {
+				stalled[a] = true
+				stallOne(a)
 			}
 		}
 	}
@@ -276,8 +293,9 @@ func run(c Case) *pbt.Violation {
 	}
 	p.WaitIdle()
 	for _, a := range cons { // everyone who was to stall before the end of the generated part is stalled now
-		if a.spec.Stall {
-			a.conn.SetRecvWindow(0)
+		if a.spec.Stall && !stalled[a] {
+			stalled[a] = true
+			stallOne(a)
 		}
 	}
 	// stall phase: more messages than any queue holds; the publisher must not be blocked (S1)
@@ -384,7 +402,7 @@ func run(c Case) *pbt.Violation {
 		switch a.spec.End {
 		case "sweep":
 			a.conn.SetRecvWindow(-1) // let the client see the close
-			if !nothingWritten[a.conn.LocalAddr().String()] {
+			if !nothingWritten[a.conn.LocalAddr().String()] && !flowing[a] {
 				pbt.Count("sweep-not-judged-bytes-were-accounted", 1)
 				continue
 			}
@@ -427,10 +445,19 @@ func run(c Case) *pbt.Violation {
 	return nil
 }
 
-func newRtspSub(s *inproc.Server) (*rtspSub, error) {
-	conn := s.RtspConn()
+func newRtspSub(s *inproc.Server, ws bool) (*rtspSub, error) {
+	var conn *memconn.Conn
+	var cl *rtspref.Client
+	var wss *wsref.Stream
+	if ws {
+		conn = s.WsRtspConn()
+		wss = wsref.NewStream(conn)
+		cl = rtspref.NewClient(wss)
+	} else {
+		conn = s.RtspConn()
+		cl = rtspref.NewClient(conn)
+	}
 	_ = conn.SetReadDeadline(time.Now().Add(lalclient.IdleTimeout))
-	cl := rtspref.NewClient(conn)
 	uri := "rtsp://127.0.0.1:5544/live/" + stream
 	done := make(chan error, 1)
 	var body []byte
@@ -460,7 +487,7 @@ func newRtspSub(s *inproc.Server) (*rtspSub, error) {
 	}
 	_ = conn.SetReadDeadline(time.Time{})
 	conn.WaitPeerIdle(lalclient.IdleTimeout)
-	rs := &rtspSub{conn: conn, cl: cl, frames: make(chan rtspref.Frame, 100000), err: make(chan error, 1)}
+	rs := &rtspSub{ws: wss, conn: conn, cl: cl, frames: make(chan rtspref.Frame, 100000), err: make(chan error, 1)}
 	go func() {
 		for {
 			f, err := cl.ReadFrame()
@@ -608,6 +635,9 @@ func checkFraming(c Case, a *attached, ci int, P []lalclient.Rec, index map[[32]
 			return pbt.V("S3/framing/ts", "%s: demuxer problem %s", who, pr)
 		}
 	case a.rs != nil:
+		if a.rs.ws != nil && a.rs.ws.FrameErr != nil {
+			return pbt.V("S3/framing/wsrtsp", "%s: websocket framing: %v", who, a.rs.ws.FrameErr)
+		}
 		for n, f := range a.rs.got {
 			if f.Channel%2 == 1 {
 				continue // rtcp
